@@ -18,6 +18,7 @@ EXTENDS StackMachine, Json
 CONSTANTS GenAbis,      \* subset of Abis
           Wide,         \* BOOLEAN: larger register universes (thorough)
           ScratchVals,  \* set of requested scratch counts
+          Hist16,       \* BOOLEAN: multi-site rewrite histories and pool-end requests
           Emit,         \* BOOLEAN: print the cases
           Strict        \* BOOLEAN: no exemption for the known findings
 
@@ -144,12 +145,10 @@ ParamsC16(cfg, a, scratch, adjknown, adj) ==
    conv |-> DefaultConv(cfg.abi), exp |-> <<>>, nstack |-> 0, target |-> ""]
 
 \* the request cannot be satisfied: fewer registers left than requested
-\* (MIPS: only the temporaries t0-t7 are candidates)
-Candidates(abi) == IF abi = "mips32" THEN {MipsRegs[i] : i \in 1..8}
-                   ELSE SeqToSet(AllRegs(abi)) \ (Reserved(abi) \cup {SpName(abi)})
+\* (Candidates: StackMachine, from the psABI, not from the library)
+Available(cfg) == Candidates(cfg.abi) \ (SeqToSet(cfg.clob) \cup SeqToSet(cfg.reads))
 Unallocatable(cfg) ==
-  LET left == Candidates(cfg.abi) \ (SeqToSet(cfg.clob) \cup SeqToSet(cfg.reads))
-  IN  cfg.scratch > Cardinality(left)
+  cfg.scratch > Cardinality(Available(cfg))
 LegitRefusalC16(cfg, exc) ==
   \/ exc = "ValueError" /\ Unallocatable(cfg)
   \/ exc = "NotImplementedError" /\ cfg.abi = "mips32" /\ cfg.align
@@ -188,7 +187,8 @@ SubSeqs(u) == {SelectSeq(u, LAMBDA r : r \in s) : s \in SUBSET SeqToSet(u)}
 BaseConfigs ==
   {[kind |-> "c16", abi |-> abi, clob |-> c, flags |-> f, align |-> al, pcs |-> p,
     scratch |-> 0, reads |-> <<>>, leaf |-> TRUE,
-    spell |-> "lower", clobsp |-> c, readsp |-> <<>>] :
+    spell |-> "lower", clobsp |-> c, readsp |-> <<>>,
+    sites |-> <<[blk |-> 0, leaf |-> TRUE]>>, mode |-> "single"] :
      abi \in GenAbis, c \in UNION {SubSeqs(ClobUniverse(x)) : x \in GenAbis},
      f \in BOOLEAN, al \in BOOLEAN, p \in BOOLEAN}
 Leafs(abi) == IF abi = "x64elf" \/ (Wide /\ abi = "x64pe") THEN BOOLEAN ELSE {TRUE}
@@ -255,23 +255,62 @@ SpellOK(c, n, rd, md) ==
   \/ md = "lower" /\ n \in ScratchVals
   \/ /\ n = SpellScratch /\ n \notin ScratchVals /\ ~c.flags /\ ~c.align /\ ~c.pcs
      /\ (Len(c.clob) > 0 \/ Len(rd) > 0)
-LoadChoices(c0) ==
+MainChoices(c0) ==
   {[c0 EXCEPT !.scratch = n, !.reads = rd, !.leaf = lf, !.spell = md,
-              !.clobsp = SpellSeq(c0.clob, md), !.readsp = SpellSeq(rd, md)] :
-     n \in {m \in ScratchVals \cup {SpellScratch} : TRUE}, rd \in ReadChoices(c0.abi),
+              !.clobsp = SpellSeq(c0.clob, md), !.readsp = SpellSeq(rd, md),
+              !.sites = <<[blk |-> 0, leaf |-> lf]>>] :
+     n \in ScratchVals \cup {SpellScratch}, rd \in ReadChoices(c0.abi),
      lf \in Leafs(c0.abi), md \in Spellings}
+
+\* The END of the scratch pool: requests of exactly what is available, one
+\* more (must be refused), the whole pool and the whole pool plus one.
+Plain(c) == ~c.flags /\ ~c.align /\ ~c.pcs
+PoolChoices(c0) ==
+  IF ~Hist16 \/ ~Plain(c0) THEN {}
+  ELSE UNION {LET x == [c0 EXCEPT !.reads = rd, !.readsp = rd]
+                  av == Cardinality(Available(x))
+                  all == Cardinality(Candidates(c0.abi))
+              IN  {[x EXCEPT !.scratch = n] : n \in {av, av + 1, all, all + 1}}
+              : rd \in ReadChoices(c0.abi)}
+
+\* Histories: ONE Patch object (body `nop') is inserted at 2-3 sites in a
+\* single RewritingContext.apply():  mode "loop" = insert_at per site (a
+\* possibly-leaf site is a block outside any function), "blocks" =
+\* AllBlocksScope(ENTRY), "funcs" = AllFunctionsScope(ENTRY, ENTRY) (every
+\* site is a function; a non-leaf one contains a call).  Site s is judged
+\* like a single insertion with leaf = sites[s].leaf.
+Sites16(ls) == [i \in DOMAIN ls |-> [blk |-> i - 1, leaf |-> ls[i]]]
+HistCombos(abi) ==
+  {<<"loop", <<TRUE, FALSE, TRUE>>>>, <<"funcs", <<TRUE, FALSE>>>>}
+  \cup (IF abi = "x64elf" \/ Wide
+        THEN {<<"loop", <<TRUE, TRUE>>>>, <<"loop", <<FALSE, FALSE>>>>,
+              <<"blocks", <<FALSE, TRUE, FALSE>>>>}
+        ELSE {})
+HistClobs(abi) == LET u == ClobUniverse(abi) IN {<<>>, <<u[1]>>, SubSeq(u, 2, Len(u)), u}
+HistChoices(c0) ==
+  IF ~Hist16 \/ c0.clob \notin HistClobs(c0.abi) THEN {}
+  ELSE {[c0 EXCEPT !.scratch = n, !.mode = hc[1], !.sites = Sites16(hc[2]), !.leaf = hc[2][1]] :
+          n \in {0, 1}, hc \in HistCombos(c0.abi)}
+\* the configuration as site number s sees it
+AtSite(c, s) == [c EXCEPT !.leaf = c.sites[s].leaf]
+
+LoadChoices(c0) ==
+  {x \in MainChoices(c0) : SpellOK(x, x.scratch, x.reads, x.spell)}
+  \cup PoolChoices(c0) \cup HistChoices(c0)
 
 Load ==
   /\ pc = 0
-  /\ \E c \in {x \in LoadChoices(cfg) : SpellOK(x, x.scratch, x.reads, x.spell)},
-        a \in RelevantAligns(cfg.abi, cfg.align) :
-        \E p \in {Predict(c)} :
+  /\ \E c \in LoadChoices(cfg) : \E s \in DOMAIN c.sites :
+        \E a \in RelevantAligns(cfg.abi, cfg.align) :
+        \E r \in {AtSite(c, s)} :                \* Level B is stateless: site s alone
+        \E p \in {Predict(r)} :
             /\ cfg' = c
-            /\ pred' = Meta(p)
+            /\ pred' = [exc |-> p.exc, scratch |-> p.scratch, site |-> s]
             /\ prog' = Program(p)
             /\ pc' = 1
-            /\ MLoad(ParamsC16(c, a, p.scratch, p.adjknown, p.adj))
-            /\ (Emit /\ \A b \in RelevantAligns(c.abi, c.align) : a <= b) => PrintT("CASE " \o ToJson(c))
+            /\ MLoad(ParamsC16(r, a, p.scratch, p.adjknown, p.adj))
+            /\ (Emit /\ s = 1 /\ \A b \in RelevantAligns(c.abi, c.align) : a <= b)
+                 => PrintT("CASE " \o ToJson(c))
 
 Step ==
   /\ pc >= 1 /\ pc <= Len(prog)
@@ -304,6 +343,8 @@ Inv_ReportedAdjustment == ReportedAdjustment(par, St)
 Inv_AlignedIfAlignStack == AlignedIfAlignStack(par, St)
 Inv_BodyStackNeutral == BodyStackNeutral(par, St)
 Inv_ScratchOK == (pc > 0 /\ pred.exc = "") => ScratchOK(cfg.abi, pred.scratch, cfg.scratch, SeqToSet(cfg.reads) \cup SeqToSet(cfg.clob))
+\* a request that cannot be served is refused
+Inv_RefusesUnservable == (pc > 0 /\ Unallocatable(cfg)) => pred.exc = "ValueError"
 \* every run that is not refused reaches the end
 Inv_Progress == (pc > Len(prog) /\ pc > 0 /\ pred.exc = "") => phase = "done"
 =============================================================================
